@@ -1,6 +1,7 @@
 package engine
 
 import (
+	"bufio"
 	"bytes"
 	"errors"
 	"fmt"
@@ -123,6 +124,7 @@ type COut struct {
 	Src      *SimSource
 	Input    []byte
 	Panic    string
+	Next     *COut   // the stream read after a Reset of the same object
 	AfterEOF ErrInfo // result of one more Read after EOF
 	ApplyErr ErrInfo
 	Finished bool
@@ -406,7 +408,13 @@ func (x *run) runReader(idx int, cs *ClientState) {
 	}
 	cur := 0
 	out.Delivered = append(out.Delivered, nil)
-	zr := lz4.NewReader(out.Srcs[0])
+	wrap := func(i int) io.Reader {
+		if n := rs.Srcs[i].Bufio; n > 0 {
+			return bufio.NewReaderSize(out.Srcs[i], n)
+		}
+		return out.Srcs[i]
+	}
+	zr := lz4.NewReader(wrap(0))
 	hs := &handlerState{yields: rs.HYield}
 	h := hs.call
 	conc := rs.Conc
@@ -502,7 +510,7 @@ func (x *run) runReader(idx int, cs *ClientState) {
 				r.Src = cur
 				// a fresh source object over the same stored bytes
 				out.Srcs[cur] = NewSimSource(x.w, fmt.Sprintf("R%d.%d", idx, cur), out.Stored[cur], rs.Srcs[cur], x.prep.Bounds[idx][cur])
-				zr.Reset(out.Srcs[cur])
+				zr.Reset(wrap(cur))
 				out.Delivered = append(out.Delivered, nil)
 			case "apply":
 				r.Err = classify(zr.Apply(lz4.ConcurrencyOption(op.Conc)))
@@ -537,12 +545,30 @@ func (x *run) judgeReaderErr(cs *ClientState, err error, src *SimSource) {
 func (x *run) runCR(idx int, cs *ClientState) {
 	c := &x.p.CRs[idx]
 	out := x.out.C[idx]
-	input := x.inputs[c.In]
-	out.Input = input
-	src := NewSimSource(x.w, fmt.Sprintf("C%d.src", idx), input, plan.Source{Frag: c.Frag, Faults: c.Faults, EOFWithData: c.EOFWithData}, nil)
-	out.Src = src
 	defer recoverInto(&out.Panic)
-	zr := lz4.NewCompressingReader(src)
+	var zr *lz4.CompressingReader
+	for n := 0; c != nil; n++ {
+		input := x.inputs[c.In]
+		out.Input = input
+		src := NewSimSource(x.w, fmt.Sprintf("C%d.src%d", idx, n), input, plan.Source{Frag: c.Frag, Faults: c.Faults, EOFWithData: c.EOFWithData}, nil)
+		out.Src = src
+		if zr == nil {
+			zr = lz4.NewCompressingReader(src)
+		} else {
+			zr.Reset(src)
+		}
+		x.crStream(zr, c, input, out)
+		if c.Next != nil {
+			out.Next = &COut{}
+			out = out.Next
+		}
+		c = c.Next
+	}
+}
+
+// crStream applies the options and reads one stream to its end.
+func (x *run) crStream(zr *lz4.CompressingReader, c *plan.CScript, input []byte, out *COut) {
+	defer recoverInto(&out.Panic)
 	hs := &handlerState{}
 	opts := x.wopts(c.Opts, len(input))
 	if !c.Opts.Default {
@@ -861,11 +887,7 @@ func (e *Executor) bubble(p *plan.Plan, out *Outcome) {
 			}
 		}
 	}
-	for _, co := range out.C {
-		if co.Panic != "" {
-			out.Panics = append(out.Panics, co.Panic)
-		}
-	}
+
 }
 
 func atoi(s string) int {
